@@ -19,7 +19,7 @@ LEVEL_TEXT = ("For each of the 16 operation variants and each step of its exchan
               "generic responses must report success iff the last reply was non-empty; an empty login reply must make state "
               "queries and all type-2 operations raise RuntimeError with exactly one frame on the wire. The prefix x step grid "
               "is enumerated completely; garbage is sampled.")
-RULE = ("case = (operation, step of the exchange, fault reply); fault alphabet {EOF, one empty read while the stream goes on, prefix of length 1..len-1, pattern bytes "
+RULE = ("case = (operation, step of the exchange, fault reply); fault alphabet {EOF, one empty read while the stream goes on, the request echoed back, prefix of length 1..len-1, pattern bytes "
         "of length 1..1024, single corrupted field}; non-trivial = fault other than EOF, or EOF at a step > 1; distinct by "
         "(kind, step, fault).")
 ASSUMPTIONS = [
@@ -74,6 +74,8 @@ def apply_fault(valid, fault, rk):
         return valid[:fault["n"]]
     if t == "pattern":
         return pattern(fault["len"], fault["seed"])
+    if t == "echo":
+        return b"<the request itself>"
     if t == "corrupt":
         name, off, data = CORRUPTIONS[rk][fault["index"] % len(CORRUPTIONS[rk])]
         b = bytearray(valid)
@@ -116,10 +118,14 @@ async def exchange(case):
                 count[0] += 1
                 return b"" if i == step else got
             rd.read = read
+        elif case["fault"]["type"] == "echo":
+            script[step] = {"echo": True}
         else:
             script[step] = {"eof": True} if data is None else {"data": data}
         dev.set_script(script)
-        status, res = await cl.call(kind, a)
+        from .. import vclock
+        with vclock.frozen_epoch("UTC", case.get("ts", 1_700_000_000)):
+            status, res = await cl.call(kind, a)
         sent = list(cl.conn.sent)
         return status, res, list(cl.conn.frames[nbefore:]), sent, data
     finally:
@@ -222,6 +228,7 @@ def cases_grid(tier):
             for step in range(nsteps(kind)):
                 out.append({"kind": kind, "args": a, "step": step, "fault": {"type": "eof"}})
                 out.append({"kind": kind, "args": a, "step": step, "fault": {"type": "empty-read"}})
+                out.append({"kind": kind, "args": a, "step": step, "fault": {"type": "echo"}, "ts": 2 ** 31 + 5000 + step})
                 pre = ["get_state", "control_on"] if ops.api_type(kind) == 1 else ["get_shutter_state", "set_position"]
                 out.append({"kind": kind, "args": a, "step": step, "fault": {"type": "eof"}, "pre": pre[:1]})
                 out.append({"kind": kind, "args": a, "step": step, "fault": {"type": "empty-read"}, "pre": pre})
@@ -246,13 +253,15 @@ def strat_garbage():
             st.tuples(lens, st.integers(0, 10 ** 9)).map(lambda t: {"type": "pattern", "len": t[0], "seed": t[1]}),
             st.just({"type": "eof"}),
             st.just({"type": "empty-read"}),
+            st.just({"type": "echo"}),
             st.integers(0, 5).map(lambda i: {"type": "corrupt", "index": i}),
         )
         same = ops.KINDS1 if ops.api_type(kind) == 1 else [k for k in ops.KINDS2]
         pre = st.one_of(st.just([]), st.lists(st.sampled_from(same), min_size=1, max_size=3))
-        return st.builds(lambda a, step, f, salt, sess, pr: _fit(dict({"kind": kind, "args": a, "step": step, "fault": f, "salt": salt,
-                                                                    "session": sess}, **({"pre": pr} if pr else {}))),
-                         gen.op_args(kind).map(c03._resolvable), st.integers(0, nsteps(kind) - 1), fault, st.integers(1, 100), gen.sessions, pre)
+        return st.builds(lambda a, step, f, salt, sess, pr, ts: _fit(dict({"kind": kind, "args": a, "step": step, "fault": f, "salt": salt,
+                                                                        "session": sess, "ts": ts}, **({"pre": pr} if pr else {}))),
+                         gen.op_args(kind).map(c03._resolvable), st.integers(0, nsteps(kind) - 1), fault, st.integers(1, 100), gen.sessions, pre,
+                         gen.timestamps)
     return st.sampled_from(ops.KINDS).flatmap(for_kind)
 
 
